@@ -61,14 +61,25 @@ inductive Node
   | internal
   deriving DecidableEq, Repr
 
+/-- per symbol: (sym, depth `d = (len-1)/8` of its leaf, bits `r = len - 8d` inside the last lookup, the `8d` leading
+bits, the `r` trailing bits) — what `addDecoderNode` derives from (code, codeLen) -/
+def leafInfo : List (Nat × Nat × Nat × Nat × Nat) :=
+  symTable.map (fun e =>
+    let d := (e.2.2 - 1) / 8
+    let r := e.2.2 - 8 * d
+    (e.1, d, r, e.2.1 >>> r, e.2.1 % 2 ^ r))
+
+/-- the internal nodes `addDecoderNode` creates: (depth of the parent, the `8(d+1)` bits leading to the node) -/
+def internalInfo : List (Nat × Nat) :=
+  (symTable.flatMap (fun e =>
+    let dl := (e.2.2 - 1) / 8
+    (List.range dl).map (fun d => (d, e.2.1 >>> (e.2.2 - 8 * d - 8))))).eraseDups
+
 /-- `n.children[idx]` where `n` is the internal node reached by the `8*d` bits `pv` (as built by `addDecoderNode`) -/
 def child (d pv idx : Nat) : Node :=
-  match symTable.find? (fun e => (e.2.2 - 1) / 8 == d &&
-      (let r := e.2.2 - 8 * d; e.2.1 >>> r == pv && idx >>> (8 - r) == e.2.1 % 2 ^ r)) with
-  | some e => .leaf e.1 (e.2.2 - 8 * d)
-  | none =>
-    if symTable.any (fun e => (e.2.2 - 1) / 8 > d && e.2.1 >>> (e.2.2 - 8 * d - 8) == pv * 256 + idx) then .internal
-    else .nil
+  match leafInfo.find? (fun e => e.2.1 == d && e.2.2.2.1 == pv && idx >>> (8 - e.2.2.1) == e.2.2.2.2) with
+  | some e => .leaf e.1 e.2.2.1
+  | none => if internalInfo.contains (d, pv * 256 + idx) then .internal else .nil
 
 structure DSt where
   d : Nat          -- depth of the current node `n`
@@ -77,6 +88,7 @@ structure DSt where
   cbits : Nat
   sbits : Nat
   out : Bytes      -- reversed
+  outLen : Nat     -- `buf.Len()`
 
 /-- the inner `for cbits >= 8` loop -/
 def innerLoop (maxLen : Nat) (st : DSt) : Nat → Except HErr DSt
@@ -87,8 +99,8 @@ def innerLoop (maxLen : Nat) (st : DSt) : Nat → Except HErr DSt
     match child st.d st.pv idx with
     | .nil => .error .invalid
     | .leaf sym codeLen =>
-      if maxLen ≠ 0 ∧ st.out.length = maxLen then .error .strLen else
-      innerLoop maxLen { st with out := UInt8.ofNat sym :: st.out, cbits := st.cbits - codeLen, d := 0, pv := 0,
+      if maxLen ≠ 0 ∧ st.outLen = maxLen then .error .strLen else
+      innerLoop maxLen { st with out := UInt8.ofNat sym :: st.out, outLen := st.outLen + 1, cbits := st.cbits - codeLen, d := 0, pv := 0,
                                  sbits := st.cbits - codeLen } fuel
     | .internal => innerLoop maxLen { st with d := st.d + 1, pv := st.pv * 256 + idx, cbits := st.cbits - 8 } fuel
 
@@ -111,13 +123,13 @@ def tailLoop (maxLen : Nat) (st : DSt) : Nat → Except HErr DSt
     | .internal => .ok st
     | .leaf sym codeLen =>
       if codeLen > st.cbits then .ok st else
-      if maxLen ≠ 0 ∧ st.out.length = maxLen then .error .strLen else
-      tailLoop maxLen { st with out := UInt8.ofNat sym :: st.out, cbits := st.cbits - codeLen, d := 0, pv := 0,
+      if maxLen ≠ 0 ∧ st.outLen = maxLen then .error .strLen else
+      tailLoop maxLen { st with out := UInt8.ofNat sym :: st.out, outLen := st.outLen + 1, cbits := st.cbits - codeLen, d := 0, pv := 0,
                                 sbits := st.cbits - codeLen } fuel
 
 /-- `huffmanDecode(buf, maxLen, v)` -/
 def decode (maxLen : Nat) (v : Bytes) : Except HErr Bytes :=
-  match feedBytes maxLen v { d := 0, pv := 0, cur := 0, cbits := 0, sbits := 0, out := [] } with
+  match feedBytes maxLen v { d := 0, pv := 0, cur := 0, cbits := 0, sbits := 0, out := [], outLen := 0 } with
   | .error e => .error e
   | .ok st =>
     match tailLoop maxLen st (st.cbits + 1) with
